@@ -32,7 +32,7 @@ pub static PROP: Prop = Prop {
         "whether every valid request is answered is counted (canonical_unanswered), not judged: the statement only constrains answers",
     ],
     profiles: Profiles::Both,
-    cases: |t| t.pick(6_000, 400_000),
+    cases: |t| t.pick(150_000, 2_000_000),
     budget_s: |t| t.pick(30, 300),
     run,
     min_nontrivial: 60,
@@ -405,6 +405,7 @@ fn run(c: &mut Case) {
             .map(|m| {
                 m.msg_type == ptpsim::T_SYNC
                     && m.sdo() == 0x300
+                    && ptpsim::ts_parse(&m.body[0..10]).1 <= 1_000_000_000
                     && m.version & 0x0f == 2
                     && m.trailer.is_empty()
                     && m.len_override.map(|l| l as usize) == Some(34 + 10 + m.tlvs.iter().map(|t| 4 + t.value.len()).sum::<usize>())
@@ -429,6 +430,8 @@ fn run(c: &mut Case) {
             if lenient_request {
                 if strict_request {
                     c.inc("canonical_unanswered");
+                    let last_empty = dec.as_ref().and_then(|m| m.tlvs.last()).map(|t| t.value.is_empty()).unwrap_or(false);
+                    c.inc(if last_empty { "canonical_unanswered/last_tlv_empty" } else { "canonical_unanswered/other" });
                 } else {
                     c.inc("odd_request_unanswered");
                 }
